@@ -15,9 +15,17 @@ use std::os::unix::fs::FileExt;
 const N: usize = 8;
 
 #[derive(Debug, Clone, Deserialize)]
-struct CaseJ { index: String, pos: String, nrec: u64, damaged: Vec<String>, same: Vec<String>, other: Vec<String> }
+struct CaseJ { index: String, pos: String, nrec: u64, #[serde(default)] size: String, damaged: Vec<String>, same: Vec<String>, other: Vec<String> }
 
-fn data_len(i: u64) -> usize { match i { 1 => 40, 2 => 5000, _ => 9 } }
+/// the damaged record of the case in progress and the length of its data (size class of the case)
+static TARGET: std::sync::atomic::AtomicU64 = std::sync::atomic::AtomicU64::new(0);
+static TARGET_LEN: std::sync::atomic::AtomicUsize = std::sync::atomic::AtomicUsize::new(0);
+
+fn data_len(i: u64) -> usize {
+    use std::sync::atomic::Ordering::SeqCst;
+    if i == TARGET.load(SeqCst) && TARGET_LEN.load(SeqCst) > 0 { return TARGET_LEN.load(SeqCst); }
+    match i { 1 => 40, 2 => 5000, _ => 9 }
+}
 fn meta_class(i: u64) -> u64 { if i == 2 { 1 } else { 0 } }
 fn rec_len(i: u64) -> u64 { (57 + N + meta_serialized_size(meta_class(i)) + data_len(i)) as u64 }
 
@@ -70,6 +78,16 @@ fn main() {
         cases += 1;
         if sample.is_none() { sample = Some(json!({"index": c.index, "pos": c.pos, "nrec": c.nrec})); }
         let target: u64 = match c.pos.as_str() { "only" | "first" => 1, "middle" => 2, _ => c.nrec };
+        {
+            use std::sync::atomic::Ordering::SeqCst;
+            TARGET.store(target, SeqCst);
+            TARGET_LEN.store(match c.size.as_str() {
+                "e4k" => 4096 - 57 - N - meta_serialized_size(meta_class(target)),   // the record just fills the single write buffer
+                "e80k" => 81_921,                                                   // beyond the in-place I/O threshold
+                "big" => 204_800,                                                   // several 64 KiB blocks and a remainder
+                _ => 0,
+            }, SeqCst);
+        }
         let dir = root.join("d");
         let c2 = c.clone();
         let res: Result<Vec<Value>, String> = rt.block_on(async move {
@@ -106,7 +124,11 @@ fn main() {
             if flen != off { return Err(format!("layout mismatch: blob is {flen} bytes, expected {off}")); }
             let dstart = offs[(target - 1) as usize] + (57 + N + meta_serialized_size(meta_class(target))) as u64;
             let dlen = data_len(target) as u64;
-            let mut ps: Vec<u64> = if dense { (0..dlen).collect() } else { vec![0, dlen / 2, dlen - 1] };
+            // first / middle / last byte, and the bytes around every 64 KiB block boundary and the 4 KiB buffer boundary
+            let mut ps: Vec<u64> = if dense && dlen <= 6000 { (0..dlen).collect() } else { vec![0, dlen / 2, dlen - 1] };
+            for b in [4096u64, 65_536, 131_072, 196_608] { for p in [b - 1, b] { if p < dlen { ps.push(p); } } }
+            if dense && dlen > 6000 { let mut p = 1; while p < dlen { ps.push(p); p = p * 2 + 1; } }
+            ps.sort();
             ps.dedup();
             let restart = c.index.starts_with("regen") || c.index.starts_with("reopen");
             // "reopen": the index files written by the first session are kept and are valid
@@ -168,7 +190,7 @@ fn main() {
         match res {
             Ok(mm) => {
                 variants += 1;
-                if !mm.is_empty() { failed += 1; println!("MISMATCH {}", json!({"case": {"index": c.index, "pos": c.pos, "nrec": c.nrec}, "mismatches": mm})); }
+                if !mm.is_empty() { failed += 1; println!("MISMATCH {}", json!({"case": {"index": c.index, "pos": c.pos, "nrec": c.nrec, "size": c.size}, "mismatches": mm})); }
             }
             Err(e) => { eprintln!("tool problem: {e}"); std::process::exit(2); }
         }
